@@ -8,6 +8,7 @@ as a tuple of resolved ids ('base' / None kept apart) or the exception CLASS (Co
 class of its __cause__: MultipleHeads / ResolutionError / RangeNotAncestorError / other RevisionError).
 """
 import random
+import re
 
 from harness import coqfmt as cf
 
@@ -59,14 +60,9 @@ JUNK = ["", "@", "+", "-", "+1x", "a+", "a-b", "a@b@c", "a@b@c+1", "@head", "hea
 
 
 def S(s):
-    """a string as ONE Coq numeral (little-endian base 256 with a leading 1), decoded by Spec.C16.dstr:
-    parsing a list of code points per string made coqc spend ten times longer reading cases than evaluating them"""
-    n = 1
-    for c in reversed(s):
-        if ord(c) > 255:
-            raise ValueError("non-latin1 character in identifier")
-        n = n * 256 + ord(c)
-    return "(dstr %d)" % n
+    """a string as a list of the character constants c32..c126 of Spec.C16 (a numeral costs coqc ~100us to read, a
+    constant ~30us; reading the case files dominated the run)"""
+    return "[" + "; ".join(("c%d" % ord(c)) if 32 <= ord(c) <= 126 else str(ord(c)) for c in s) + "]"
 
 
 # ----------------------------------------------------------------------------- generator
@@ -197,12 +193,24 @@ def rel_queries(revs):
     return rel + [x + "@" + r for x in names for r in rel[:4]]
 
 
+DGLABEL = re.compile(r"^[^@]+@-[0-9]+$")
+
+
+def dglabel(q):
+    """the second recorded class: a downgrade target `name@-N` (relative to the current revisions of a branch)"""
+    return bool(DGLABEL.match(q))
+
+
+def batches(revs, cur, qs):
+    for fa in (False, True):
+        for fd in (False, True):
+            part = [q for q in qs if affected(revs, q) == fa and dglabel(q) == fd]
+            for k in range(0, len(part), BATCH):
+                yield {"revs": revs, "cur": cur, "queries": part[k:k + BATCH], "affected": fa, "dglabel": fd}
+
+
 def cases_for(revs, rnd):
-    qs = queries_for(revs, rnd)
-    for flag in (False, True):
-        part = [q for q in qs if affected(revs, q) == flag]
-        for k in range(0, len(part), BATCH):
-            yield {"revs": revs, "cur": [], "queries": part[k:k + BATCH], "affected": flag}
+    yield from batches(revs, [], queries_for(revs, rnd))
     ids = [r["id"] for r in revs]
     children = {x: [r["id"] for r in revs if x in r["down"]] for x in ids}
     heads = [x for x in ids if not children[x]]
@@ -213,10 +221,7 @@ def cases_for(revs, rnd):
         curs.append(rnd.sample(ids, 2))
     rq = rel_queries(revs)
     for cur in curs:
-        for flag in (False, True):
-            part = [q for q in rq if affected(revs, q) == flag]
-            for k in range(0, len(part), BATCH):
-                yield {"revs": revs, "cur": cur, "queries": part[k:k + BATCH], "affected": flag}
+        yield from batches(revs, cur, rq)
 
 
 FIXED = [
@@ -366,7 +371,7 @@ def run_case(h):
         cf.lst(S(q) for q in h["queries"]))
     cout = cf.lst("(mkObs %s)" % " ".join(_coq_outcome(x) for x in o) for o in out)
     nlab = sum(len(r["labels"]) for r in revs)
-    shape = "n%d-l%d-%s%s" % (len(revs), nlab, "cur" if cur else "abs", "-affected" if h.get("affected") else "")
+    shape = "n%d-l%d-%s%s" % (len(revs), nlab, "cur" if cur else "abs", ("-affected" if h.get("affected") else "") + ("-dglabel" if h.get("dglabel") else ""))
     return dict(cin=cin, cout=cout, out={"oracle": oracle, "obs": out}, nontrivial=nontrivial, shape=shape)
 
 
@@ -387,8 +392,12 @@ def _coq_outcome(x):
 # ----------------------------------------------------------------------------- known finding
 
 def classify(human, out):
-    """A decider failure belongs to the recorded finding only if the batch consists of identifier strings of the
-    recorded class (some name component whose documented candidates differ from the >3-character map keys)."""
-    if human.get("affected") and all(affected(human["revs"], q) for q in human["queries"]):
+    """A decider failure belongs to a recorded finding only if the whole batch lies in the recorded input class and
+    (for the AssertionError finding) the recorded deviation kind is what the implementation showed."""
+    qs = human["queries"]
+    if human.get("dglabel") and all(dglabel(q) for q in qs) and out and \
+            any(o[4].get("err") == "XAssertion" for o in out["obs"]):
+        return "C16-downgrade-label-relative-assert"
+    if human.get("affected") and all(affected(human["revs"], q) for q in qs):
         return "C16-short-or-label-prefix"
     return None
